@@ -32,6 +32,9 @@ type c18op struct {
 	D    time.Duration
 	H    uint32
 	V    byte
+	// Same (reset): repeat the previous reset's height, view and duration exactly - what the library does whenever it
+	// re-arms the timer of one view (seeded change C18l: an "identical reset" fast path)
+	Same bool
 }
 
 func genC18ops() *rapid.Generator[[]c18op] {
@@ -53,6 +56,7 @@ func genC18ops() *rapid.Generator[[]c18op] {
 			o.D = dur.Draw(t, "d")
 			o.H = rapid.Uint32().Draw(t, "h")
 			o.V = rapid.Byte().Draw(t, "v")
+			o.Same = rapid.IntRange(0, 2).Draw(t, "same") == 2
 		case "extend":
 			o.D = time.Duration(rapid.IntRange(0, 40).Draw(t, "ems")) * time.Millisecond
 		case "sleep":
@@ -75,6 +79,7 @@ func c18Run(ops []c18op) (viol, key string, classes map[string]int, susp *c18sus
 		ambiguous bool // an Extend raced the deadline: neither a further expiry nor its absence is judged
 		h         uint32
 		v         byte
+		lastD     time.Duration // duration given to the latest Reset (without extensions)
 	)
 	check := func(now time.Time, what string) (string, string) {
 		if !have {
@@ -91,6 +96,10 @@ func c18Run(ops []c18op) (viol, key string, classes map[string]int, susp *c18sus
 	for i, o := range ops {
 		switch o.Kind {
 		case "reset":
+			if o.Same && have {
+				o.H, o.V, o.D = h, v, lastD
+				classes["reset_identical_to_previous"]++
+			}
 			if have && !consumed && time.Now().After(s1.Add(D)) {
 				classes["reset_after_unread_expiry"]++
 			}
@@ -104,7 +113,7 @@ func c18Run(ops []c18op) (viol, key string, classes map[string]int, susp *c18sus
 				return fmt.Sprintf("op %d: Reset(%d,%d,%s) did not return within %s", i, o.H, o.V, o.D, c18Tolerance), "reset-blocked", classes, nil
 			}
 			s1 = time.Now()
-			D, have, consumed, ambiguous, h, v = o.D, true, false, false, o.H, o.V
+			D, lastD, have, consumed, ambiguous, h, v = o.D, o.D, true, false, false, o.H, o.V
 			if o.D == 0 && o.V%2 == 0 {
 				// fires immediately for a zero duration (read at once in half of the cases, left unread in the others)
 				select {
